@@ -4,7 +4,9 @@ set -u
 PATCH=$1; shift
 cd /verif
 if [ -n "$(git -C /repo status --porcelain --untracked-files=no)" ]; then echo "REPO DIRTY, abort"; exit 2; fi
-trap 'git -C /repo checkout -- . ; echo "[reverted]"' EXIT
+# after reverting, the generated Lean files are regenerated from the clean tree (a later `git add -A` must never pick
+# up tables / effect lists translated from a seeded change)
+trap 'git -C /repo checkout -- . ; python3 -c "import sys; sys.path.insert(0, \"/verif/tools\"); import gen_lean, gen_rates, effects, specials, os; r = gen_lean.load_all(); open(os.path.join(\"/verif/lean/Micm/Gen/Params.lean\"), \"w\").write(gen_lean.emit_lean(*r)); gen_rates.write(); effects.write(); specials.write()" > /dev/null 2>&1; echo "[reverted]"' EXIT
 git -C /repo apply "$PATCH" || { echo "PATCH DOES NOT APPLY"; exit 2; }
 for id in "$@"; do
   start=$(date +%s)
